@@ -101,7 +101,7 @@ CHECKS.update({
    text=('Theorems about the literal model of expr.go (model/ExprEval.v: combineSigns, flipDoubleNegatives, evaluation, 32-bit range check): for EVERY expression tree over non-negative literals, + - * / %, parentheses and '
          'any run of stacked unary signs, written out token by token, evaluateExpression returns the exact integer value (usual precedence, left associativity, / and % truncating toward zero) when it fits 32 bits and an error when a '
          'division by zero occurs or it does not fit; the two token rewritings turn a printed tree into a printed tree of the same value that never contains "++" or "--"; the value is then reduced to v mod M; the predefined names '
-         'evaluate to the configuration values; an ;assert passes exactly when its expression is non-zero. go/types.Eval itself is modelled (by the precedence-climbing evaluator proved correct against the denotation), not verified, '
+         'evaluate to the configuration values; an ;assert passes exactly when its expression is non-zero; and for EVERY token list that the reference evaluator accepts (so also for the lists textual EQU substitution produces, which are the printed form of no tree in the program) evaluateExpression returns the reference value (C07_all_accepted_token_lists). go/types.Eval itself is modelled (by the precedence-climbing evaluator proved correct against the denotation), not verified, '
          'and the lexing of the rendered text and EQU substitution are tied by correspondence: every run evaluates generated expressions (depth <= 6, sign runs, redundant parentheses, EQU-introduced signs, several core sizes) '
          'with gmars (hooked evaluateExpression and whole programs) against the extracted model and the independent denotation.'),
    design_ref='DESIGN.md 5 C07', note=NOTE_STD + ' go/types.Eval is modelled on the fragment of decimal literals, + - * / %, unary signs and parentheses; inputs outside it are excluded from the tie (model answers Unmodelled).',
